@@ -921,6 +921,98 @@ def _inlinable(h):
     return True
 
 
+def _fold_flag_bindings(fnode):
+    """After inlining, a helper's flag parameter is a local bound once to the
+    constant the call passed (`convert = True`): its reads are replaced by the
+    constant and the `if` statements they decide are folded to the arm that
+    runs, so that the view shows what this call does."""
+    stores = {}
+    for n in ast.walk(fnode):
+        if isinstance(n, ast.Name) and isinstance(n.ctx, (ast.Store, ast.Del)):
+            stores[n.id] = stores.get(n.id, 0) + 1
+        elif isinstance(n, ast.arg):
+            stores[n.arg] = stores.get(n.arg, 0) + 1
+    flags = {}
+    for st in ast.walk(fnode):
+        if isinstance(st, ast.Assign) and len(st.targets) == 1 and \
+                isinstance(st.targets[0], ast.Name) and \
+                isinstance(st.value, ast.Constant) and \
+                (isinstance(st.value.value, bool) or st.value.value is None) \
+                and stores.get(st.targets[0].id) == 1:
+            flags[st.targets[0].id] = st.value.value
+    if not flags:
+        return
+
+    class _S(ast.NodeTransformer):
+        def visit_Name(self, n):
+            if isinstance(n.ctx, ast.Load) and n.id in flags:
+                return ast.copy_location(ast.Constant(value=flags[n.id]), n)
+            return n
+
+        def _truth(self, t):
+            if isinstance(t, ast.Constant):
+                return bool(t.value)
+            if isinstance(t, ast.UnaryOp) and isinstance(t.op, ast.Not):
+                v = self._truth(t.operand)
+                return None if v is None else not v
+            if isinstance(t, ast.BoolOp):
+                vs = [self._truth(x) for x in t.values]
+                if isinstance(t.op, ast.And):
+                    if any(v is False for v in vs):
+                        return False
+                    return True if all(v is True for v in vs) else None
+                if any(v is True for v in vs):
+                    return True
+                return False if all(v is False for v in vs) else None
+            if isinstance(t, ast.Compare) and len(t.ops) == 1 and \
+                    isinstance(t.left, ast.Constant) and \
+                    isinstance(t.comparators[0], ast.Constant) and \
+                    isinstance(t.ops[0], (ast.Is, ast.IsNot)):
+                same = t.left.value is t.comparators[0].value
+                return same if isinstance(t.ops[0], ast.Is) else not same
+            return None
+
+        def visit_If(self, node):
+            self.generic_visit(node)
+            v = self._truth(node.test)
+            if v is None:
+                return node
+            arm = node.body if v else node.orelse
+            return arm or [ast.copy_location(ast.Pass(), node)]
+
+        def visit_IfExp(self, node):
+            self.generic_visit(node)
+            v = self._truth(node.test)
+            if v is None:
+                return node
+            return node.body if v else node.orelse
+
+        def visit_While(self, node):
+            self.generic_visit(node)
+            if self._truth(node.test) is False:
+                return node.orelse or [ast.copy_location(ast.Pass(), node)]
+            return node
+
+        def visit_BoolOp(self, node):
+            self.generic_visit(node)
+            # `True and x` -> x ; `False or x` -> x
+            keep = []
+            for v in node.values:
+                tv = self._truth(v) if isinstance(v, ast.Constant) else None
+                if isinstance(node.op, ast.And) and tv is True:
+                    continue
+                if isinstance(node.op, ast.Or) and tv is False:
+                    continue
+                keep.append(v)
+            if not keep:
+                return node.values[-1]
+            if len(keep) == 1:
+                return keep[0]
+            node.values = keep
+            return node
+    _S().visit(fnode)
+
+
 def inline_view(fn, depth=2, keep=()):
     """A copy of fn in which statements that call an inlinable local helper
     (`self.h(...)`, a module function, a nested function) as a whole
@@ -1086,6 +1178,7 @@ def inline_view(fn, depth=2, keep=()):
             return ast.copy_location(inl, call)
 
     _ExprInline().visit(node)
+    _fold_flag_bindings(node)
     ast.fix_missing_locations(node)
     view = Function(fn.module, fn.qualname, node, cls=fn.cls, parent=fn.parent)
     view.inlined_from = fn
